@@ -56,6 +56,14 @@ Definition TRIGON_MIN := -9000.
 Definition TRIGON_MAX := 45000.
 Definition trig_idx (a : Z) : Z := if (a <? TRIGON_MIN) || (a >=? TRIGON_MAX) then 0 else a.
 
+(* MSOP blocks per revolution: (uint16_t)(1 / (rps * BLOCK_DURATION)) in double arithmetic *)
+Definition blks_per_frame_of (d : desc) (rps : Z) : Z :=
+  (dy_trunc (dy_div_r 53 (dy_of_Z 1) (dy_mul_r 53 (dy_of_Z rps) (d_block_duration d)))) mod 65536.
+(* ... scaled by the return mode: doubled in dual-return mode, halved for 16-beam types in single-return mode *)
+Definition split_blks_of (d : desc) (dual : bool) (blks : Z) : Z :=
+  if d_is16 d then (if dual then blks else blks / 2)
+  else (if dual then (blks * 2) mod 65536 else blks).
+
 Definition init_split (c : dcfg) : split_state :=
   if (c_split_mode c =? 2) || (c_split_mode c =? 3) then SsNum 0 else SsAngle (c_split_angle c).
 
@@ -63,7 +71,7 @@ Definition init_dstate (d : desc) (c : dcfg) : dstate :=
   let n := Z.to_nat (d_laser_num d) in
   mk_dstate (d_init_angles_ready d) false
     (repeat 0 n) (repeat 0 n) (repeat 0 n)
-    10 (d_init_blks_per_frame d) (d_init_split_blks d) 20 0
+    10 (d_init_blks_per_frame d) (split_blks_of d false (d_init_blks_per_frame d)) 20 0
     (init_split c) seq_init None false 0 0 0 0 true false None None.
 
 (* ---------------------------------------------------------------- distance window *)
@@ -185,7 +193,7 @@ Definition decode_difop_common (d : desc) (s : dstate) (b : bytes) : dstate :=
   let rps := if rps0 =? 0 then 10 else rps0 in
   let bd := d_block_duration d in
   (* (uint16_t)(1 / (rps * BLOCK_DURATION)) in double arithmetic *)
-  let blks := (dy_trunc (dy_div_r 53 (dy_of_Z 1) (dy_mul_r 53 (dy_of_Z rps) bd))) mod 65536 in
+  let blks := blks_per_frame_of d rps in
   (* (uint16_t)std::round(36000 * rps * BLOCK_DURATION) *)
   let azd := (dy_round_half_away (dy_mul_r 53 (dy_of_Z (RS_ONE_ROUND * rps)) bd)) mod 65536 in
   let fs := be16 b (d_off_difop_fov_start d) in let fe := be16 b (d_off_difop_fov_end d) in
@@ -236,12 +244,7 @@ Definition decode_difop (d : desc) (with_parse : bool) (s : dstate) (b : bytes) 
       let s1 := decode_difop_common d s b in
       let echo := echo_of d (u8 b (d_off_difop_return_mode d)) in
       let rev := match d_variant d with VarBpv4 => negb (u8 b (d_off_difop_reversal d) =? 0) | _ => s_reversal s1 end in
-      let s2 :=
-        if d_is16 d then
-          (* only recomputed when the echo mode flips *)
-          if Bool.eqb (s_echo_dual s1) echo then set_echo_split s1 echo (s_split_blks s1) rev
-          else set_echo_split s1 echo (if echo then s_blks_per_frame s1 else (s_blks_per_frame s1) / 2) rev
-        else set_echo_split s1 echo (if echo then (s_blks_per_frame s1 * 2) mod 65536 else s_blks_per_frame s1) rev in
+      let s2 := set_echo_split s1 echo (split_blks_of d echo (s_blks_per_frame s1)) rev in
       difop_devinfo d with_parse s2 b
   | Mems =>
       let s1 := if d_sets_echo d then set_echo_split s (echo_of d (u8 b (d_off_difop_return_mode d))) (s_split_blks s) (s_reversal s) else s in
